@@ -18,8 +18,8 @@ from vlib.verdict import Case
 
 PROPERTY = 'C20'
 MANIFEST = {
- 'level_text': 'Lean 4 theorems about a model of Irc.addCallback/getCallback/removeCallback, IrcCallback/Owner/Misc.callPrecedence and the control flow of Owner.load/unload/reload: for every iteration order of the Python sets the computed order is a permutation of the callbacks in which every resolved before/after edge holds (order_sound), Owner is first and Misc last (owner_first, misc_last), constraint sets admitting no order are rejected and leave the list unchanged (cycle_rejected) while every constraint set that admits an order is accepted (acyclic_accepted), the loop never needs more rounds than callbacks (fuel_enough); along every history of load/unload/reload with arbitrary failures the list keeps unique names, satisfied edges and Owner first (history_inv), failed loads and attempts on Owner change nothing (load_failure_preserves, owner_stays), a reload whose module cannot be imported (ImportError or any other exception) puts the untouched old instance back (reload_failure_preserves), a plugin naming itself in callBefore/callAfter is rejected as a cycle (self_reference_rejected), the answered commands are exactly those of the registered plugins (commands_union), also through the C14 model of findCallbacksForArgs/finalEval (commands_dispatch); the persisted supybot.plugins.<Name> flags follow load/unload (flag_tracks) and the start-up loader Owner._loadPlugins keeps the invariant, drops nothing and adds only flagged or forced-important plugins (startup_inv, unloaded_stays_out); all Irc objects (networks) refer to one list object that the commands only mutate in place, so every network sees the same list after any history (shared_view, shared_history). The model is tied to /repo by a differential run of seeded random histories against a live bot with synthetic plugins (arbitrary callBefore/callAfter incl. unknown names, cycles, case variants, raising __init__/die/import), which also evaluates the property statement on the implementation after every step.',
- 'level_note': 'Trusted: Lean kernel; axioms propext/Classical.choice/Quot.sound only; the correspondence harness and its synthetic plugins; names are ASCII (str.lower modelled on ASCII). Modelled and proved: the topological sort of addCallback with its set-order freedom, case-insensitive lookup/removal, the callPrecedence variants (a self-reference is a one-element cycle), the success/failure paths of load (incl. --deprecated) / unload / reload, the flag registration of conf.registerPlugin, the start-up loader with importantPlugins / alwaysLoadImportant. Exercised only: importing modules from disk, conf.registerPlugin flags, command dispatch of the probe commands (C14 covers dispatch). Known finding kept in the model: reload loses the plugin when the new constructor raises or the new instance closes a cycle, because the old instance has been killed by then (reload_failure_partial, reload_ctor_counter).',
+ 'level_text': 'Lean 4 theorems about a model of Irc.addCallback/getCallback/removeCallback, IrcCallback/Owner/Misc.callPrecedence and the control flow of Owner.load/unload/reload: for every iteration order of the Python sets the computed order is a permutation of the callbacks in which every resolved before/after edge holds (order_sound), Owner is first and Misc last (owner_first, misc_last), constraint sets admitting no order are rejected and leave the list unchanged (cycle_rejected) while every constraint set that admits an order is accepted (acyclic_accepted), the loop never needs more rounds than callbacks (fuel_enough); along every history of load/unload/reload with arbitrary failures the list keeps unique names, satisfied edges and Owner first (history_inv), failed loads and attempts on Owner change nothing (load_failure_preserves, owner_stays), a reload whose module cannot be imported (ImportError or any other exception) puts the untouched old instance back (reload_failure_preserves), a plugin naming itself in callBefore/callAfter is rejected as a cycle (self_reference_rejected), the answered commands are exactly those of the registered plugins (commands_union), also through the C14 model of findCallbacksForArgs/finalEval (commands_dispatch); the persisted supybot.plugins.<Name> flags follow load/unload (flag_tracks) and the start-up loader Owner._loadPlugins keeps the invariant, drops nothing and adds only flagged or forced-important plugins (startup_inv, unloaded_stays_out); all Irc objects (networks) refer to one list object that the commands only mutate in place, so every network sees the same list after any history (shared_view, shared_history), also networks connected or disconnected in the middle of it (late_network_sees_all); command renames (Owner.rename/unrename, re-applied by loadPluginClass on every load) change nothing but command names (renames_keep_identity). The model is tied to /repo by a differential run of seeded random histories against a live bot with synthetic plugins (arbitrary callBefore/callAfter incl. unknown names, cycles, case variants, raising __init__/die/import), which also evaluates the property statement on the implementation after every step.',
+ 'level_note': 'Trusted: Lean kernel; axioms propext/Classical.choice/Quot.sound only; the correspondence harness and its synthetic plugins; names are ASCII (str.lower modelled on ASCII). Modelled and proved: the topological sort of addCallback with its set-order freedom, case-insensitive lookup/removal, the callPrecedence variants (a self-reference is a one-element cycle), the success/failure paths of load (incl. --deprecated) / unload / reload, the flag registration of conf.registerPlugin, the start-up loader with importantPlugins / alwaysLoadImportant, Irc objects created and killed during a history, Owner.rename / unrename and the re-application of renames at load time (a rename whose command no longer exists in the version on disk makes every later load of that plugin raise). Exercised only: importing modules from disk, conf.registerPlugin flags, command dispatch of the probe commands (C14 covers dispatch). Known finding kept in the model: reload loses the plugin when the new constructor raises or the new instance closes a cycle, because the old instance has been killed by then (reload_failure_partial, reload_ctor_counter).',
  'technique': 'Lean 4 proof (loop invariants over the extraction rounds, history induction) + differential correspondence on a live bot',
  'design_ref': 'DESIGN.md §6 C20',
 }
@@ -28,7 +28,7 @@ THEOREMS = ['C20.order_sound', 'C20.owner_first', 'C20.misc_last', 'C20.cycle_re
             'C20.owner_stays', 'C20.reload_failure_preserves', 'C20.reload_failure_partial',
             'C20.reload_ctor_counter', 'C20.self_reference_rejected', 'C20.commands_union',
             'C20.shared_view', 'C20.shared_history', 'C20.startup_inv', 'C20.unloaded_stays_out', 'C20.flag_tracks',
-            'C20.commands_dispatch']
+            'C20.commands_dispatch', 'C20.late_network_sees_all', 'C20.renames_keep_identity']
 TRUSTED = ['Lean 4.33.0 kernel; axioms ⊆ {propext, Classical.choice, Quot.sound}',
            'harness/c20.py generators, reply canonicalisation, synthetic plugins harness/plugins/VtOrd0..5',
            'plugin names are ASCII (str.lower modelled on the ASCII range)',
@@ -96,6 +96,9 @@ def canon_reply(rs):
     if 'An error has occurred' in r: return 'exception'
     if 'is already loaded' in r: return 'error:already loaded'
     if 'is deprecated' in r: return 'error:deprecated'
+    if 'is not a valid plugin' in r: return 'error:invalid plugin'
+    if 'is not a valid command in' in r: return 'error:invalid command'
+    if 'already has an attribute named' in r: return 'error:attribute exists'
     if "You can't unload" in r: return "error:can't unload Owner"
     if "You can't reload" in r: return "error:can't reload Owner"
     if r.startswith('Error:'): return 'error:no plugin'
@@ -116,6 +119,18 @@ def hard_reset(b, c):
             b.conf.supybot.plugins.unregister(n)
         except Exception:
             pass
+        try:
+            b.conf.supybot.commands.renames.unregister(n)
+        except Exception:
+            pass
+    while len(b.ircs) > 2:
+        extra = b.ircs.pop()
+        try:
+            extra.die()
+        except Exception:
+            pass
+        if extra in b.world.ircs:
+            b.world.ircs.remove(extra)
     for n in BASE:
         b.conf.supybot.plugins.get(n).setValue(False)
     b.conf.supybot.commands.defaultPlugins.importantPlugins.setValue(set(BASE))
@@ -196,13 +211,25 @@ def gen_ops(r, n):
         elif y < 0.27: fault = 'die'
         if x < 0.45: kind = 'load'
         elif x < 0.65: kind = 'unload'
-        elif x < 0.9: kind = 'reload'
-        else: kind = 'startup'
+        elif x < 0.82: kind = 'reload'
+        elif x < 0.88: kind = 'startup'
+        elif x < 0.94: kind = 'rename'
+        elif x < 0.96: kind = 'unrename'
+        elif x < 0.985: kind = 'connect'
+        else: kind = 'disconnect'
         ops.append({'op': kind, 'name': case_variant(r, tgt) if tgt in VT or tgt.startswith('V') or r.random() < 0.5 else tgt, 'fault': fault,
                     'irc': 1 if r.random() < 0.5 else 0,          # the network the command arrives on
                     'bump': r.random() < 0.6,                      # the plugin's module "on disk" changes first
                     'dep': r.random() < 0.4,                       # load --deprecated
                     'sfaults': {v: r.choice(FAULTS[:3]) for v in VT if r.random() < 0.12} if kind == 'startup' else {}})
+        if kind in ('rename', 'unrename'):
+            v = r.choice(VT)
+            ops[-1]['name'] = r.choice([v, v.lower(), v.upper()])
+            ops[-1]['cmd'] = r.choice(['ord' + v[-1], 'alt' + v[-1], 'zz' + v[-1] + 'a', 'zz' + v[-1] + 'b'])
+            ops[-1]['new'] = r.choice(['zz' + v[-1] + 'a', 'zz' + v[-1] + 'b', 'ord' + v[-1], 'alt' + v[-1]])
+            ops[-1]['irc'] = r.choice([0, 1, 2])
+        if kind in ('load', 'unload', 'reload', 'startup') and r.random() < 0.2:
+            ops[-1]['irc'] = 2          # the network connected later, when there is one
 
     return ops
 
@@ -301,8 +328,34 @@ def run_trial(b, c, trial):
         if rn not in VT:
             fault = ''            # the failure knobs exist only in the synthetic plugins
         which = op.get('irc', 0)
+        if which >= len(b.ircs):
+            which = 0
         dep = bool(op.get('dep')) and kind == 'load'
-        if kind == 'startup':
+        extra_line = None
+        if kind == 'connect':
+            # a network is connected while plugins are loaded: irclib.Irc(network), as Owner._connect does (the start-up
+            # loader it then runs is the separate 'startup' op)
+            if len(b.ircs) < 3:
+                if not hasattr(b.conf.supybot.networks, 'test3'):
+                    b.conf.registerNetwork('test3')
+                    b.conf.supybot.networks.test3.ssl.setValue(False)
+                irc3 = b.irclib.Irc('test3')
+                irc3.feedMsg(b.ircmsgs.IrcMsg(':server 001 %s :Welcome' % b.nick))
+                while irc3.takeMsg() is not None:
+                    pass
+                b.ircs.append(irc3)
+                extra_line = 'connect'
+            reply = 'success'; nm = 'connect'; rn = None; fault = ''
+        elif kind == 'disconnect':
+            if len(b.ircs) > 2:
+                b.ircs.pop().die()
+                extra_line = 'disconnect\t2'
+            reply = 'success'; nm = 'disconnect'; rn = None; fault = ''
+        elif kind == 'rename':
+            reply = canon_reply(say(b, 'rename %s %s %s' % (nm, op['cmd'], op['new']), which))
+            extra_line = 'rename\t%d\t%s\t%s\t%s' % (which, wire.enc(nm), wire.enc(op['cmd']), wire.enc(op['new']))
+            rn = reg_name(nm); fault = ''
+        elif kind == 'startup':
             # Owner._loadPlugins(irc), as run when a network is connected; failures injected per plugin
             sf = {k: v for k, v in op.get('sfaults', {}).items()}
             c.import_fails = set(k for k, v in sf.items() if v == 'import')
@@ -320,6 +373,12 @@ def run_trial(b, c, trial):
             nm = 'startup'; rn = None
             tags.update('sfault:' + v for v in sf.values())
         else:
+            if kind == 'unrename':
+                # the reload inside unrename looks the plugin up on disk under its registered (class) name
+                cls = reg_name(nm)
+                rn = real_name(cls) if cls else None
+                if rn not in VT:
+                    fault = ''
             fs = set(fault.split('+'))
             c.import_fails = set([rn]) if 'import' in fs and rn else set()
             c.import_other = set([rn]) if 'other' in fs and rn else set()
@@ -333,32 +392,40 @@ def run_trial(b, c, trial):
         c.import_fails = set(); c.import_other = set(); c.init_raises = set(); c.die_raises = set()
         after_names = names(b, 0)
         other_names = names(b, 1)
-        if other_names != after_names:
-            problems.append('step %d (%s %s on network %d): the two networks see different callback lists: %r vs %r' % (
-                si, kind, nm, which, after_names, other_names))
+        third_names = names(b, 2) if len(b.ircs) > 2 else None
+        nets = tuple(range(len(b.ircs)))
+        for net in nets[1:]:
+            if names(b, net) != after_names:
+                problems.append('step %d (%s %s on network %d): network %d sees another callback list than network 0: %r vs %r' % (
+                    si, kind, nm, which, net, names(b, net), after_names))
         # probes: every command is sent through the real dispatcher, on both networks
         answered = []
         last = (si == len(trial['ops']) - 1)
         probe = VT if (last or trial.get('probe_all')) else [v for v in VT if v == rn or v == reg_name(nm) or v == VT[(si * 5 + len(nm)) % len(VT)]]
         probed_cmds = set()
         for v in probe:
-            inst = b.irc.getCallback(v)
-            for cmd, word in (('ord' + v[-1], 'here'), ('alt' + v[-1], 'alt')):
+            inst = None
+            for cb_ in b.irc.callbacks:
+                if cb_.name() == v:
+                    inst = cb_
+            have = set(inst.listCommands()) if inst is not None else set()
+            for cmd in ('ord' + v[-1], 'alt' + v[-1], 'zz' + v[-1] + 'a', 'zz' + v[-1] + 'b'):
                 probed_cmds.add(cmd)
-                should = inst is not None and cmd in commands_of(v, getattr(inst, 'vt_version', 0))
-                want = ['%s %s g%d' % (v, word, inst.vt_serial)] if should else None
-                for net in (0, 1):
+                should = cmd in have
+                for net in nets:
                     rs = say(b, cmd, net)
-                    ok = len(rs) == 1 and rs[0].startswith('%s %s g' % (v, word))
+                    ok = len(rs) == 1 and (rs[0].startswith('%s here g' % v) or rs[0].startswith('%s alt g' % v))
                     if net == 0 and ok:
                         answered.append(cmd)
-                    if should and rs != want:
-                        problems.append('step %d (%s %s): %s is registered (instance %d, version %d) but %s on network %d gives %r' % (
-                            si, kind, nm, v, inst.vt_serial, inst.vt_version, cmd, net, rs))
+                    if should and not (ok and rs[0].endswith(' g%d' % inst.vt_serial)):
+                        problems.append('step %d (%s %s): %s is registered (instance %d, version %d, commands %r) but %s on network %d gives %r' % (
+                            si, kind, nm, v, inst.vt_serial, inst.vt_version, sorted(have), cmd, net, rs))
                     elif not should and ok:
                         problems.append('step %d (%s %s): no registered plugin has the command %s, yet network %d answers %r' % (
                             si, kind, nm, cmd, net, rs))
-        for net in (0, 1):
+            if inst is not None and b.conf.supybot.plugins.get(v).public() is not True:
+                problems.append('step %d: supybot.plugins.%s.public is not set for a loaded plugin' % (si, v))
+        for net in nets:
             c.seen[:] = []
             say(b, 'vtorder probe', net)
             seen = list(c.seen)
@@ -366,8 +433,9 @@ def run_trial(b, c, trial):
             if seen != want_seen:
                 problems.append('step %d: on network %d the plugins saw the message in order %r, irc.callbacks says %r' % (si, net, seen, want_seen))
         after_flags = flags_of(b)
-        impl.append('%s\t%s\t%s\t%s\t%s' % (reply, wire.enc_list(after_names), wire.enc_list(other_names),
-                                          wire.enc_list(sorted(answered)), enc_flags(after_flags)))
+        impl.append('%s\t%s\t%s\t%s\t%s\t%s' % (reply, wire.enc_list(after_names), wire.enc_list(other_names),
+                                              wire.enc_list(sorted(answered)), enc_flags(after_flags),
+                                              '~' if third_names is None else wire.enc_list(third_names)))
         probed.append(probed_cmds)
         # model line
         isdep = rn in c.deprecated if rn else False
@@ -375,7 +443,16 @@ def run_trial(b, c, trial):
         avail = '~'
         if rn is not None and (rn in VT or rn in BASE):
             avail = describe_plugin(c, rn)
-        if kind == 'unload':
+        if kind in ('connect', 'disconnect', 'rename'):
+            if extra_line is None:
+                # nothing happened (already connected / nothing to disconnect): the model does a no-op unload of a ghost
+                lines.append('unload\t0\t%s\t000000' % wire.enc('NoSuchPluginAtAll'))
+                impl[-1] = 'error:no plugin' + impl[-1][len(reply):]
+            else:
+                lines.append(extra_line)
+        elif kind == 'unrename':
+            lines.append('unrename\t%d\t%s\t%s\t%s\t%s' % (which, wire.enc(nm), avail, fbits, wire.enc_list(after_names)))
+        elif kind == 'unload':
             lines.append('unload\t%d\t%s\t%s' % (which, wire.enc(nm), fbits))
         elif kind == 'startup':
             disk = ','.join('%s=%s' % (wire.enc(DIR_OF.get(n, n)), describe_plugin(c, n)) for n in list(BASE) + VT)
@@ -415,7 +492,7 @@ def run_trial(b, c, trial):
             problems.append('step %d: failed load %s (%s) changed the list: %r -> %r' % (si, nm, reply, before_names, after_names))
         if kind in ('unload', 'reload') and nm.lower() == 'owner' and (after_names != before_names or not reply.startswith("error:can't")):
             problems.append('step %d: %s %s: %s, %r -> %r' % (si, kind, nm, reply, before_names, after_names))
-        if kind == 'reload' and reply != 'success' and sorted(after_names) != sorted(before_names):
+        if kind in ('reload', 'unrename') and reply != 'success' and sorted(after_names) != sorted(before_names):
             msg = 'step %d: failed reload %s (%s, fault %s) lost a plugin: %r -> %r' % (si, nm, reply, fault or 'cycle', before_names, after_names)
             if 'ctor' in fault or (fault == '' and reply == 'exception'):
                 findings.add(F_RELOAD); tags.add('finding:reload-loses')
@@ -428,7 +505,7 @@ def run_trial(b, c, trial):
         if kind == 'unload' and reply in ('success', 'exception') and reg and reg in after_names:
             problems.append('step %d: unload %s -> %s but %s is still registered' % (si, nm, reply, reg))
         # name lookups on every network (they also prime whatever a network caches per object)
-        for net in (0, 1):
+        for net in nets:
             for v in VT + list(BASE):
                 cbv = b.ircs[net].getCallback(v.swapcase() if (si + net) % 2 else v)
                 if (cbv is not None) != (v in after_names) or (cbv is not None and cbv.name() != v):
@@ -561,7 +638,7 @@ def fill_model(cases, all_lines, spans):
         got = []
         for o, pr in zip(outs[a:a + n], probed):
             f = o.split('\t')
-            if len(f) == 5 and pr is not None:
+            if len(f) == 6 and pr is not None:
                 # the model lists the commands of all registered plugins; keep the probed ones, sorted
                 f[3] = wire.enc_list(sorted(x for x in wire.dec_list(f[3]) if x in pr))
             got.append('\t'.join(f))
